@@ -188,6 +188,21 @@ def d7_class(R, lay):
     return any(cl[i][0] == "===" and lay["cw"][i][1] == "" for i in range(len(cl) - 1))
 
 
+def chain_ok(R, lay):
+    """the exact D7 condition (ReqExactP.rq_chain_okb false items): a '===' token directly followed by the comma swallows the following
+    clauses up to the next blank; the requirement is still read correctly iff every swallowed clause has no blank after its comma and
+    no whitespace after its operator.  Theorem C08_requirement_render_exact demands acceptance when this holds, C08_D7_rejected
+    rejection when it does not (for valid clause lists)."""
+    cl = R["clauses"]
+    chain = False
+    for i, c in enumerate(cl):
+        a, b = lay["cw"][i]
+        if chain and (a != "" or c[1] != ""): return False
+        if i == len(cl) - 1: break
+        chain = (chain or c[0] == "===") and b == ""
+    return True
+
+
 def rand_layout(rng, R, canonical=False):
     w = (lambda: "") if canonical else (lambda: ws(rng))
     n = len(R["clauses"]); m = len(R["extras"] or [])
